@@ -965,6 +965,15 @@ def wave8_rules(ctx):
         x = dict(x)
         x["key"] = x["key"].replace("C07.values", "C04.scope/values")
         obs.append(x)
+    # wave 9: (6) the order of scope events in the analysis pass (shared with C05.mirror), (7) the import table of a file
+    # (shared with C13.lazy), (8) the definitions of the runtime helpers the emitted text calls (shared with C03.helpers)
+    from share import relabel
+    from rules.c05 import check_mirror
+    obs += relabel(check_mirror(ctx), "C05.mirror/analysis", "C04.scope/analysis")
+    from rules.c13 import lazy_rule
+    obs += relabel(lazy_rule(ctx), "C13.lazy/import-table", "C04.proto/import-table")
+    from rules.c03 import helper_defs_rule
+    obs += relabel(helper_defs_rule(ctx), "C03.helpers/def", "C04.proto/helpers/def")
     return obs
 
 
